@@ -26,7 +26,8 @@ from ..translate import ir
 
 THEOREMS = ["generated_wf", "square_is_mul", "absolute_is_abs", "limits_square_absolute", "square_correctly_rounded", "absolute_exact",
             "hypot_constants", "sqrt2_bounds", "ties_hypot", "hypot_accuracy", "hypot_generated", "hypot_hypotheses_satisfiable",
-            "hypot_kinds", "soft_sqrt_correctly_rounded", "soft_refines_rational_sqrt", "hypot_bit_level_f32", "hypot_bit_level_f64"]
+            "hypot_kinds", "soft_sqrt_correctly_rounded", "soft_refines_rational_sqrt", "hypot_bit_level_f32", "hypot_bit_level_f64",
+            "Lmax_values", "Lmax_ge4", "soft_refines_rational_forward", "hypot_total_f32", "hypot_total_f64"]
 SEARCHED = ["4 ULP (float32) / 5 ULP (float64) bound", "fewer than 1 in 1e5 inputs above 3 ULP", "NaN exactly where undefined", "exact limits at infinities and zero"]
 TRUSTED = [
     "Lean 4 kernel; axioms propext, Classical.choice, Quot.sound only",
@@ -44,6 +45,9 @@ LEVEL_TEXT = ("Partial proof. Theorems on the regenerated programs: well-formedn
               "rational strictly between r 2^E and (r+1) 2^E, r = floor sqrt of the scaled radicand, hence (1-u)^2 v <= y^2 <= (1+u)^2 v), the refinement theorem is extended to programs with sqrt (soft_refines_rational_sqrt, "
               "oracle Ssoft = value of FP.sqrt on the pattern of its argument), and hypot_bit_level_f32/f64 state: for ALL finite input patterns with max(|x|,|y|) >= twice the smallest normal, whenever no float node of the "
               "regenerated program is non-finite, the output pattern is finite and its value H satisfies the same bounds — nothing is assumed about sqrt. "
+              "WITHOUT ANY ASSUMPTION ABOUT THE RUN (Props/C02HypotTotal.lean): the forward refinement theorem soft_refines_rational_forward (if the Q-run is defined and every float node of it stays within +-Lmax, "
+              "the bit-exact run is defined and finite everywhere; from the no-overflow lemmas add/sub/mul/div/sqrt_finite) and bounds on all 25 nodes of the Q-run give hypot_total_f32/f64: for ALL finite operand patterns "
+              "with 2^(emin+p) <= max(|x|,|y|) <= Lmax/2 the run exists, no node overflows, the output is finite and within 3.51 u of sqrt(x^2+y^2). "
               "The 4/5-ULP bounds, the 1e-5 rate, the NaN domain and the limits of asin/acos/asinh/acosh/hypot are decided by search: float32 exhaustively in the thorough "
               "tier (all non-NaN patterns), strided + boundary-targeted in quick; float64 and hypot sampled against an mpmath Ziv reference.")
 LEVEL_NOTE = "ULP bounds of the libm-based functions: search only (exhaustive for float32 in thorough); hypot: theorem over Q with an abstract correctly-rounded sqrt (normal range, absent overflow) + search."
@@ -278,7 +282,7 @@ def run(ctx):
                 "float64: log-uniform samples + the same boundary sets; hypot: pairs (independent, nearby exponents, thresholds) + lattice; "
                 "non-trivial = finite input with a determined reference; distinct by input bits")
     progs, errors = generate(ctx)
-    broken = ctx.lean_stage(["FAVerif.Props.C02", "FAVerif.Props.C02Hypot", "FAVerif.Props.C02HypotBits"], THEOREMS)
+    broken = ctx.lean_stage(["FAVerif.Props.C02", "FAVerif.Props.C02Hypot", "FAVerif.Props.C02HypotBits", "FAVerif.Props.C02HypotTotal"], THEOREMS)
     for k, e in errors.items():
         broken.append(ctx.broken(f"translate:{k}", e))
     n64 = ctx.scale(4000, 200000)
